@@ -44,13 +44,19 @@ func New(shards int, store string) *Rig { return NewWithSyncPeriod(shards, store
 // NewWithSyncPeriod: store "k8s" with a non-zero period is the write-back mode (the limiter binary's default is 30 s);
 // the rig passes a period its run never reaches - flushes happen when the driver calls Flush on the store.
 func NewWithSyncPeriod(shards int, store string, period time.Duration) *Rig {
+	return NewWithIdentity(shards, store, period, Me)
+}
+
+// NewWithIdentity: the identity is what the server advertises as the leader's address in its server info (the wire
+// rig passes the URL its HTTP front end listens on).
+func NewWithIdentity(shards int, store string, period time.Duration, identity string) *Rig {
 	if period > 0 {
 		// (needs pkg/ratelimiter/store/k8s/cache_store.go in the check's INSTR list) the store's periodic flush loop is
 		// not started: wait.Until would run a first flush at once, concurrently with the driver
 		vsched.DropGoCallers = []string{"NewK8sCacheStore"}
 	}
 	gw := gwfake.NewSimpleClientset()
-	opts := options.RateLimitOptions{ShardingCount: shards, LimitStore: store, Identity: Me, K8sStoreSyncPeriod: period,
+	opts := options.RateLimitOptions{ShardingCount: shards, LimitStore: store, Identity: identity, K8sStoreSyncPeriod: period,
 		LeaderElectionConfiguration: componentbaseconfig.LeaderElectionConfiguration{ResourceLock: "leases", ResourceNamespace: "ns", ResourceName: "limiter",
 			LeaseDuration: metav1.Duration{Duration: 15 * time.Second}, RenewDeadline: metav1.Duration{Duration: 10 * time.Second}, RetryPeriod: metav1.Duration{Duration: 2 * time.Second}}}
 	h, l, err := limiter.VerifNew(gw, k8sfake.NewSimpleClientset(), opts)
